@@ -122,6 +122,17 @@ def run(ctx):
         ctx.ob('PAIR', 'B:insert#%d:same-key' % i, len(keys) == 1, c.where(), 'inserted and removed under the same message id: %s' % (len(keys) == 1))
         ys = yields_between(sr, c.bb, [r.bb for r in rem])
         guard_ty, sweep = _cancel_protection(prog, 'active_requests', sr)
+        # a drop guard protects only from the point where it exists: it must be constructed before the first await that
+        # follows the insert (a future dropped in between leaves the entry behind for ever)
+        if guard_ty and ys and not sweep:
+            gty = getattr(_cancel_protection, 'last_guard_ty', None)
+            gblocks = [bi_ for bi_, si_, s_ in sr.stmts() if s_['r']['k'] == 'agg' and gty and str(s_['r'].get('adt', '')).split('<')[0] == gty]
+            gblocks += [cs_.bb for cs_ in sr.calls() if gty and cs_.dest and gty in sr.local_ty(cs_.dest[0]) and cs_.callee.startswith(gty.rsplit('::', 1)[0])]
+            early = [g_ for g_ in gblocks if sr.dominates(c.bb, g_) and not yields_between(sr, c.bb, [g_])]
+            ctx.ob('CANCEL-SAFE', 'B:guard-before-first-await', bool(early), c.where(),
+                   'the drop guard is constructed after the insert with no await point in between' if early else
+                   'the drop guard (%s) is constructed only after an await point that follows the insert into active_requests: a request future dropped '
+                   'while suspended there leaks its slot for ever (256 leaks refuse every later request)' % (gty or 'drop guard'), entry=TH + '::send_request')
         ctx.ob('CANCEL-SAFE', 'B:cancel', (not ys) or guard_ty or sweep, c.where(),
                ('%d await point(s) lie between the insert into active_requests and its removal, and neither a Drop guard nor a sweep of the table exists: '
                 'a dropped send_request future leaks one of %s slots for ever' % (len(ys), 'MAX_ACTIVE_REQUESTS')) if (ys and not guard_ty and not sweep) else
@@ -238,7 +249,7 @@ def run(ctx):
     ctx.floor('UNAUTH-NO-EFFECT', 2)
     ctx.floor('COMPLETION-GATE', 7)
     ctx.floor('AT-MOST-ONCE', 6)
-    ctx.floor('CANCEL-SAFE', 3)
+    ctx.floor('CANCEL-SAFE', 4)
     ctx.floor('CAP', 2)
 
 
@@ -358,6 +369,7 @@ def _cancel_protection(prog, field, body):
                         # the guard type must be instantiated in `body`
                         if any(imp['self_ty'].split('<')[0] in l['ty'] for l in body.locals):
                             guard = True
+                            _cancel_protection.last_guard_ty = imp['self_ty'].split('<')[0]
     tag = json.dumps(field)
     for b in prog.bodies.containing(field):
         if b.file != body.file:
